@@ -33,6 +33,15 @@ REQUIRED = [
     ('Vul', '__str__'), ('Vul', 'pbn_format'), ('Vul', 'str_to_vul'),
     ('Contract', 'is_passed_out'), ('Contract', 'is_vul'), ('Contract', 'level'), ('Contract', 'trump'),
     ('Contract', 'necessary_tricks'), ('Contract', '__str__'), ('Contract', 'str_to_contract'),
+    ('BiddingPhase', '__init__'), ('BiddingPhase', 'take_bid'), ('BiddingPhase', 'has_done'), ('BiddingPhase', 'contract'),
+    ('PlayingPhase', '__init__'), ('PlayingPhase', 'play_card'), ('PlayingPhase', 'play_card_by_player'),
+    ('PlayingPhase', 'has_done'), ('PlayingPhase', 'calc_highest'), ('PlayingPhase', 'available_cards'),
+    ('PlayingPhase', 'current_available_cards'), ('PlayingPhase', '_set_next_leader'), ('PlayingPhase', '_record'),
+    ('PlayingPhaseWithHands', '__init__'), ('PlayingPhaseWithHands', 'play_card_by_player'),
+    ('PlayingPhaseWithHands', 'current_available_cards_in_hand'),
+    ('ObservedPlayingPhase', '__init__'), ('ObservedPlayingPhase', 'play_card_by_player'),
+    ('ObservedPlayingPhase', 'set_dummy_hand'), ('ObservedPlayingPhase', 'current_available_cards_in_hand'),
+    ('ObservedPlayingPhase', 'current_available_cards_in_dummy_hand'),
 ]
 
 K = {'value': 1, 'name': 2, '__str__': 3, '__int__': 4, '__lt__': 5, '__le__': 6, '__gt__': 7, '__ge__': 8,
@@ -434,7 +443,9 @@ class Translator:
             raise Skip(f'call of {f.id}')
         if isinstance(f, ast.Attribute):
             # np.ones(n)
-            if isinstance(f.value, ast.Name) and f.value.id == 'np' and f.attr == 'ones' and len(node.args) == 1:
+            if isinstance(f.value, ast.Name) and f.value.id == 'np' and f.attr == 'ones' and len(node.args) >= 1 \
+                    and all(k.arg == 'dtype' for k in node.keywords) and len(node.args) <= 2:
+                # the element type (float by default, or `dtype=int` / `bool`) is not modelled: a vector of ones
                 return f'(.builtin .npOnes [{self.expr(node.args[0])}])'
             # Class.m(..) / cls.m(..)
             if isinstance(f.value, ast.Name):
@@ -611,6 +622,8 @@ class Translator:
                 exc = exc.func
             if isinstance(exc, ast.Name) and exc.id in EXCEPTIONS:
                 return f'(.raise K.{exc.id})'
+            if isinstance(exc, ast.Name) and exc.id[:1].isupper() and exc.id not in self.locals:
+                return f'(.raise {self.ident(exc.id)})'            # any other exception class, by its name
             raise Skip('raise shape')
         if isinstance(st, ast.Assert):
             return f'(.assert {self.expr(st.test)})'
@@ -728,55 +741,85 @@ class Translator:
                 ',\n  body := ' + body + ' }')
 
     # ------------------------------------------------------------------ output
+    GROUPS = [('Base', ['suit', 'pair', 'vul', 'player', 'bid', 'card', 'contract', 'score'], 100),
+              ('Auction', ['bidding_phase'], 2000),
+              ('Play', ['playing_phase'], 3000)]
+
+    def names_of(self, module):
+        names = set()
+        tree = ast.parse(open(os.path.join(self.repo, 'bridge_env', module + '.py'), encoding='utf-8').read())
+        for n in ast.walk(tree):
+            if isinstance(n, ast.Name):
+                names.add(n.id)
+            elif isinstance(n, ast.Attribute):
+                names.add(n.attr)
+            elif isinstance(n, ast.arg):
+                names.add(n.arg)
+            elif isinstance(n, (ast.FunctionDef, ast.ClassDef)):
+                names.add(n.name)
+            elif isinstance(n, ast.keyword) and n.arg:
+                names.add(n.arg)
+        return names
+
     def generate(self):
+        """-> {file name: text}: PyCoreBase / PyCoreAuction / PyCorePlay (each imports the previous one; identifiers are
+        numbered per group so that a change in a later group leaves the earlier files byte-identical) and PyCore (the union,
+        for the driver and for the theorems about the two state machines)"""
         self.collect()
         self.mutating = self.compute_mutating()
-        names = set()
-        for m in MODULES:
-            tree = ast.parse(open(os.path.join(self.repo, 'bridge_env', m + '.py'), encoding='utf-8').read())
-            for n in ast.walk(tree):
-                if isinstance(n, ast.Name):
-                    names.add(n.id)
-                elif isinstance(n, ast.Attribute):
-                    names.add(n.attr)
-                elif isinstance(n, ast.arg):
-                    names.add(n.arg)
-                elif isinstance(n, (ast.FunctionDef, ast.ClassDef)):
-                    names.add(n.name)
-                elif isinstance(n, ast.keyword) and n.arg:
-                    names.add(n.arg)
-        self.intern_all(names)
-        defs = []
+        group_of_name = {}
+        for gname, mods, start in self.GROUPS:
+            fresh = set()
+            for m in mods:
+                fresh |= self.names_of(m)
+            nxt = start
+            for n in sorted(fresh):
+                if n not in self.ids:
+                    self.ids[n] = nxt
+                    group_of_name[n] = gname
+                    nxt += 1
+        group_of_module = {m: g for g, mods, _ in self.GROUPS for m in mods}
+        defs = {g: [] for g, _, _ in self.GROUPS}
         funcs = []
         methods = {}
+        skipped = {g: [] for g, _, _ in self.GROUPS}
         translated = set()
+        func_module = {}
+        for m in MODULES:
+            tree = ast.parse(open(os.path.join(self.repo, 'bridge_env', m + '.py'), encoding='utf-8').read())
+            for node in tree.body:
+                if isinstance(node, ast.FunctionDef):
+                    func_module[node.name] = m
         for fname, fd in self.functions.items():
+            g = group_of_module[func_module[fname]]
             try:
                 body = self.func(fd, None, 'function')
             except Skip as e:
-                self.skipped.append((fname, str(e)))
+                skipped[g].append((fname, str(e)))
                 continue
-            defs.append(f'def f_{fname} : FuncDef := {body}\n')
-            funcs.append(f'({self.ident(fname)}, f_{fname})')
+            defs[g].append(f'def f_{fname} : FuncDef := {body}\n')
+            funcs.append((g, f'({self.ident(fname)}, f_{fname})'))
             translated.add(('', fname))
         for ci in self.classes.values():
+            g = group_of_module[ci.module]
             for mname, (fd, kind) in ci.methods.items():
                 try:
                     body = self.func(fd, ci.name, kind)
                 except Skip as e:
-                    self.skipped.append((f'{ci.name}.{mname}', str(e)))
+                    skipped[g].append((f'{ci.name}.{mname}', str(e)))
                     continue
                 lname = f'm_{ci.name}_{mname}'
-                defs.append(f'def {lname} : FuncDef := {body}\n')
+                defs[g].append(f'def {lname} : FuncDef := {body}\n')
                 methods.setdefault(ci.name, []).append(f'({self.ident(mname)}, {lname})')
                 translated.add((ci.name, mname))
+        self.skipped = [x for g, _, _ in self.GROUPS for x in skipped[g]]
         missing = [r for r in REQUIRED if r not in translated]
         if missing:
             why = {k: v for k, v in self.skipped}
             raise TranslationError('required functions outside the translated subset: ' +
                                    '; '.join(f'{c + "." if c else ""}{n}: {why.get((c + "." if c else "") + n, "not found")}'
                                              for c, n in missing))
-        classes = []
+        classes = {g: [] for g, _, _ in self.GROUPS}
         for ci in self.classes.values():
             members = '[' + ', '.join(f'({self.chars(n)}, {self.int_lit(v)})' for n, v in ci.members) + ']'
             fields = []
@@ -789,37 +832,58 @@ class Translator:
                     except Skip:
                         raise TranslationError(f'default of {ci.name}.{n} is not a constant')
             base = f'some {self.ident(ci.base)}' if ci.base in self.classes else 'none'
-            classes.append(f'({self.ident(ci.name)}, {{ name := {self.chars(ci.name)}, base := {base}, members := {members}, '
-                           f'fields := {self.elist(fields)}, isEnum := {"true" if ci.is_enum else "false"}, '
-                           f'isDataclass := {"true" if ci.is_dataclass else "false"}, methods := {self.elist(methods.get(ci.name, []))} }})')
+            classes[group_of_module[ci.module]].append(
+                f'({self.ident(ci.name)}, {{ name := {self.chars(ci.name)}, base := {base}, members := {members}, '
+                f'fields := {self.elist(fields)}, isEnum := {"true" if ci.is_enum else "false"}, '
+                f'isDataclass := {"true" if ci.is_dataclass else "false"}, methods := {self.elist(methods.get(ci.name, []))} }})')
         globs = []
-        for g, v in self.globals.items():
+        for gl, v in self.globals.items():
             try:
-                globs.append(f'({self.ident(g)}, {self.val(v)})')
+                globs.append(f'({self.ident(gl)}, {self.val(v)})')
             except Skip:
                 pass
-        out = [HEADER]
+        files = {}
+        prev = 'BridgeVerif.Model.MiniPy'
         used = sorted(n for n in self.used_names if n not in K)
-        for n in used:
-            out.append(f'abbrev n_{n} : Id := {self.ids[n]}')
-        out.append('')
+        for g, mods, _ in self.GROUPS:
+            out = [HEADER % (prev, ', '.join(m + '.py' for m in mods))]
+            mine = sorted(n for n, gg in group_of_name.items() if gg == g)     # all of them: the file depends on its modules only
+            for n in mine:
+                out.append(f'abbrev n_{n} : Id := {self.ids[n]}')
+            out.append('')
+            out.append(f'def names{g} : List (Id × String) := [' +
+                       ', '.join(f'({self.ids[n]}, "{n}")' for n in sorted(mine, key=lambda x: self.ids[x])) + ']\n')
+            out += defs[g]
+            out.append(f'def classes{g} : List (Id × ClassDef) := [\n    ' + ',\n    '.join(classes[g]) + ']\n')
+            out.append(f'def funcs{g} : List (Id × FuncDef) := [\n    ' + ',\n    '.join(t for gg, t in funcs if gg == g) + ']\n')
+            if g == 'Base':
+                out.append('def globalsBase : List (Id × Val) := [\n    ' + ',\n    '.join(globs) + ']\n')
+                out.append('/-- the value classes and the scoring functions -/')
+                out.append('def programBase : Program := { classes := classesBase, funcs := funcsBase, globals := globalsBase }\n')
+            out.append(f'def skipped{g} : List (String × String) := [' +
+                       ', '.join('("%s", "%s")' % (a, b.replace('\\', '\\\\').replace('"', '\\"')) for a, b in skipped[g]) + ']\n')
+            out.append('end Bridge.Generated.PyCore\n')
+            files[f'PyCore{g}.lean'] = '\n'.join(out)
+            prev = f'BridgeVerif.Generated.PyCore{g}'
+        gs = [g for g, _, _ in self.GROUPS]
+        out = [HEADER % (prev, 'all of the above')]
         out.append('/-- identifier table (for the driver and for reading counterexamples) -/')
-        out.append('def names : List (Id × String) := [' +
-                   ', '.join(f'({self.ids[n]}, "{n}")' for n in sorted(set(used) | set(K), key=lambda x: self.ids[x])) + ']\n')
-        out += defs
-        out.append('def program : Program :=\n  { classes := [\n    ' + ',\n    '.join(classes) + '],\n    funcs := [\n    ' +
-                   ',\n    '.join(funcs) + '],\n    globals := [\n    ' + ',\n    '.join(globs) + '] }\n')
+        out.append('def names : List (Id × String) := [' + ', '.join(f'({v}, "{k}")' for k, v in sorted(K.items(), key=lambda kv: kv[1])) +
+                   '] ++ ' + ' ++ '.join(f'names{g}' for g in gs) + '\n')
+        out.append('/-- the whole translated core: value classes, scoring, and the two state machines -/')
+        out.append('def program : Program :=\n  { classes := ' + ' ++ '.join(f'classes{g}' for g in gs) + ',\n    funcs := ' +
+                   ' ++ '.join(f'funcs{g}' for g in gs) + ',\n    globals := globalsBase }\n')
         out.append('/-- functions of the listed modules that are outside the translated subset, with the reason -/')
-        out.append('def skipped : List (String × String) := [' +
-                   ', '.join('("%s", "%s")' % (a, b.replace('\\', '\\\\').replace('"', '\\"')) for a, b in self.skipped) + ']\n')
+        out.append('def skipped : List (String × String) := ' + ' ++ '.join(f'skipped{g}' for g in gs) + '\n')
         out.append('end Bridge.Generated.PyCore\n')
-        return '\n'.join(out)
+        files['PyCore.lean'] = '\n'.join(out)
+        return files
 
 
-HEADER = '''import BridgeVerif.Model.MiniPy
+HEADER = '''import %s
 /-!
-GENERATED by harness/translate_py.py from bridge_env/{suit,pair,vul,player,bid,card,contract,score,bidding_phase,
-playing_phase}.py — do not edit.  The functions of the pure core as a MiniPy `Program` (Model/MiniPy.lean gives the meaning).
+GENERATED by harness/translate_py.py from bridge_env/ (%s) — do not edit.
+Functions of the pure core as MiniPy definitions (Model/MiniPy.lean gives the meaning).
 -/
 set_option maxRecDepth 4000
 namespace Bridge.Generated.PyCore
@@ -827,25 +891,32 @@ open Bridge.Py
 '''
 
 
+FILES = ['PyCoreBase.lean', 'PyCoreAuction.lean', 'PyCorePlay.lean', 'PyCore.lean']
+
+
 def generate(repo):
     return Translator(repo).generate()
 
 
 def regenerate(repo, lean_dir):
-    path = os.path.join(lean_dir, 'BridgeVerif', 'Generated', 'PyCore.lean')
+    """(names of the files that changed, error)"""
+    gdir = os.path.join(lean_dir, 'BridgeVerif', 'Generated')
     try:
-        text = generate(repo)
+        files = generate(repo)
     except (TranslationError, OSError, SyntaxError) as e:
-        return False, f'core translation failed: {type(e).__name__}: {e}'
-    old = open(path, encoding='utf-8').read() if os.path.exists(path) else None
-    if old != text:
-        os.makedirs(os.path.dirname(path), exist_ok=True)
-        tmp = path + '.tmp%d' % os.getpid()
-        with open(tmp, 'w', encoding='utf-8') as f:
-            f.write(text)
-        os.replace(tmp, path)
-        return True, None
-    return False, None
+        return [], f'core translation failed: {type(e).__name__}: {e}'
+    changed = []
+    os.makedirs(gdir, exist_ok=True)
+    for name, text in files.items():
+        path = os.path.join(gdir, name)
+        old = open(path, encoding='utf-8').read() if os.path.exists(path) else None
+        if old != text:
+            tmp = path + '.tmp%d' % os.getpid()
+            with open(tmp, 'w', encoding='utf-8') as f:
+                f.write(text)
+            os.replace(tmp, path)
+            changed.append(name)
+    return changed, None
 
 
 if __name__ == '__main__':
@@ -853,5 +924,5 @@ if __name__ == '__main__':
     repo = os.environ.get('BRIDGE_ENV_REPO', '/repo')
     lean = os.path.join(os.path.dirname(os.path.dirname(os.path.abspath(__file__))), 'lean')
     ch, err = regenerate(repo, lean)
-    print('changed' if ch else 'unchanged', err or '')
+    print('changed' if ch else 'unchanged', ch, err or '')
     sys.exit(1 if err else 0)
